@@ -24,7 +24,7 @@ func init() {
 		Spec: func(tier string) evid.Spec {
 			return evid.Spec{ID: "C12", Level: "exploration", Exhaustive: true,
 				Rule: "plane 1 (direct call of the log-backed accounter with a recording sink and Response): every flag octet x seq{1,3,5} x enum profiles; plane 2: every 4-tuple of content tokens " +
-					"{plain,%,%s%d,100%,%!v(,\",\\,\\n,\\x00,\\x7f,'a b',<&>,255x%} in user/port/rem_addr/argument, argument counts {0,1,2,255}; plane 3 (full reference server over the scripted network): " +
+					"{plain,%,%s%d,100%,%!v(,\",\\,\\n,\\x00,\\x7f,'a b',<&>,255x%, literal \\u003c / \\u0026\\u003e / \\\\n\\\" / \\u00e9 / &lt;} in user/port/rem_addr/argument, argument counts {0,1,2,255}; plane 3 (full reference server over the scripted network): " +
 					"all arrival orders of length <= 3 over {start,stop,watchdog@1,watchdog-update@3,bad-flags,undecodable} x {same,different} session ids x users {with accounter, unknown, without accounter}, " +
 					"checking that the sink call precedes the reply's write on the global event clock; plane 4 (engine E2): two connections sending accounting records concurrently under the controlled scheduler with statement-level points in the accounter, every schedule with <= 1 (quick) / 2 (thorough) deviations. Oracle: a SUCCESS reply implies exactly one sink call whose rendered line (format and arguments as log.Logger would print them) " +
 					"JSON-decodes to exactly the request's fields; undecodable / stop+watchdog / unknown user / no accounter are answered ERROR. distinct_nontrivial = distinct requests answered SUCCESS (by content hash)",
@@ -169,7 +169,9 @@ func c12Direct(c *Ctx, h tq.Handler, sink *sinkRec, m *ref.Msg, seq int) {
 	}
 }
 
-var c12Tokens = []string{"plain", "%", "%s%d", "100%", "%!v(", `"`, `\`, "\n", "\x00", "\x7f", "a b", "<&>", strings.Repeat("%", 255)}
+var c12Tokens = []string{"plain", "%", "%s%d", "100%", "%!v(", `"`, `\`, "\n", "\x00", "\x7f", "a b", "<&>", strings.Repeat("%", 255),
+	// text that looks like the escapes an encoder produces: must come back as the same six characters
+	`\u003c`, `x\u0026\u003e`, `\\n\"`, `\u00e9`, "&lt;"}
 
 func c12Run(c *Ctx) {
 	sink := &sinkRec{}
